@@ -474,3 +474,22 @@ Qed.
 Theorem create_refuses dict bs n mo ht :
   create dict bs n mo ht = None <-> (mo = true /\ (ht = true \/ dict = true)).
 Proof. unfold create. destruct mo, ht, dict; simpl; split; intros H; try discriminate; try tauto; try (destruct H as [? [?|?]]; discriminate). Qed.
+
+(* with a VecNormalize: the sampled element is normalize_* of the STORED raw values of that one add *)
+Theorem reach_sample_normalized fo fr dict bs n ht b0 ops d e : create dict bs n false ht = Some b0 ->
+  let b := run b0 ops in let h := recent ops in
+  fst (sample_bounds b) <= d < snd (sample_bounds b) ->
+  exists k, 0 <= k /\ len h - capacity bs n <= k < len h /\
+    let t := col e (rowZ h k) in
+    get_norm fo fr b (idx_of_draw b d) e = (fo (t_obs t), t_act t, fo (t_next t), done_flag ht t, fr (t_rew t)).
+Proof.
+  intros H b h Hd. destruct (reach_sample_sound dict bs n ht b0 ops d e H Hd) as (k & Hk0 & Hk & Hg).
+  exists k. split; [exact Hk0|]. split; [exact Hk|]. cbn zeta in *. unfold get_norm. fold b in Hg. rewrite Hg. reflexivity.
+Qed.
+
+(* reset() empties: size 0, the index range of sample() is empty (randint(0, 0) raises), whatever was stored *)
+Theorem reset_empties b : size (reset b) = 0 /\ pos (reset b) = 0 /\ full (reset b) = false /\ sample_bounds (reset b) = (0, 0).
+Proof. unfold size, sample_bounds, reset. cbn [pos full memopt cap]. rewrite andb_false_r. repeat split; reflexivity. Qed.
+
+Lemma frag_base_reset b : (pos (reset b), full (reset b)) = base_reset.
+Proof. reflexivity. Qed.
